@@ -1,7 +1,7 @@
 (* Model for C09: the bookkeeping behind fakesnow's metadata answers. DuckDB keeps the live catalog
    (tables, columns, types); what it cannot keep - table comments and declared VARCHAR lengths - goes to
    the side tables _fs_tables_ext / _fs_columns_ext (info_schema.py:8-32), written by cursor.py:329-355
-   (after fixes 249cf77, ca4ef8a, d04f18a, 6836b10) and read back by _fs_columns_snowflake / the tables_ext join
+   (after fixes 249cf77, ca4ef8a, d04f18a, 6836b10, 8d29e50) and read back by _fs_columns_snowflake / the tables_ext join
    (info_schema.py:36-80, transforms.py:583-622) and DESCRIBE TABLE (transforms.py:147-221).
    The live list also carries, as ghost data, what the user declared for the CURRENT incarnation of each
    table: that is what Snowflake would report. Names arrive normalised (C02). *)
@@ -15,6 +15,8 @@ Fixpoint key_eqb (a b : key) : bool :=
   | _, _ => false
   end.
 
+(* an entry of a side table = a row whose value columns are not NULL: since 8d29e50 rows are emptied (SET ... = NULL), not
+   deleted, and a row with NULL values answers exactly like no row through the LEFT JOINs that read the tables *)
 Definition amap (X : Type) := list (key * X).
 Fixpoint lookup {X} (m : amap X) (k : key) : option X :=
   match m with [] => None | (k', v) :: r => if key_eqb k' k then Some v else lookup r k end.
@@ -180,6 +182,29 @@ Fixpoint dom_from (st : state) (h : list op) : bool :=
   match h with [] => true | o :: r => dom_at st o && dom_from (step st o) r end.
 Definition dom (h : list op) : bool := dom_from init h.
 
+(* ---- transactions (one session): DuckDB's DDL is transactional and the side-table writes go through the same
+   engine connection (cursor.py: self._duck_conn), so ROLLBACK takes both back together ---- *)
+Inductive top := Stmt (o : op) | TBegin | TCommit | TRollback.
+Record tstate := { cur : state; saved : option state }.
+Definition tinit : tstate := {| cur := init; saved := None |}.
+Definition tstep (ts : tstate) (o : top) : tstate :=
+  match o with
+  | Stmt o => {| cur := step (cur ts) o; saved := saved ts |}
+  | TBegin => match saved ts with None => {| cur := cur ts; saved := Some (cur ts) |} | Some _ => ts end
+  | TCommit => {| cur := cur ts; saved := None |}
+  | TRollback => match saved ts with Some s => {| cur := s; saved := None |} | None => ts end
+  end.
+Definition trun (h : list top) : tstate := fold_left tstep h tinit.
+Definition tdom_at (ts : tstate) (o : top) : bool :=
+  match o with
+  | Stmt o => dom_at (cur ts) o
+  | TBegin => match saved ts with None => true | Some _ => false end      (* BEGIN inside a transaction: engine error *)
+  | TCommit | TRollback => true
+  end.
+Fixpoint tdom_from (ts : tstate) (h : list top) : bool :=
+  match h with [] => true | o :: r => tdom_at ts o && tdom_from (tstep ts o) r end.
+Definition tdom (h : list top) : bool := tdom_from tinit h.
+
 (* ---- sexp ---- *)
 Definition dec_key (x : sexp) : option key := dec_list dec_str x.
 Definition dec_ctype (x : sexp) : option ctype :=
@@ -200,6 +225,13 @@ Definition dec_mop (x : sexp) : option op :=
   | L [A 8; k; s] => match dec_key k, dec_key s with Some k, Some s => Some (Clone k s) | _, _ => None end
   | _ => None
   end.
+Definition dec_top (x : sexp) : option top :=
+  match x with
+  | L [A 9] => Some TBegin
+  | L [A 10] => Some TCommit
+  | L [A 11] => Some TRollback
+  | _ => option_map Stmt (dec_mop x)
+  end.
 Definition enc_ty (t : Z + Z) : sexp := match t with inl n => L [A 0; A n] | inr z => L [A 1; A z] end.
 Definition enc_table (st : state) (k : key) : sexp :=
   L [enc_list enc_str k;
@@ -211,13 +243,13 @@ Definition enc_table (st : state) (k : key) : sexp :=
      enc_opt enc_str (comment_spec st k);
      enc_opt (enc_list (fun p => L [enc_str (fst p); enc_ty (snd p)])) (describe_spec st k)].
 (* input: (ops...) ; output: after EVERY op, for every live table: (key comment describe lengths spec-comment spec-describe), plus dom *)
-Fixpoint trace (st : state) (h : list op) : list sexp :=
+Fixpoint trace (ts : tstate) (h : list top) : list sexp :=
   match h with
   | [] => []
-  | o :: r => let st' := step st o in L (map (fun p => enc_table st' (fst p)) (live st')) :: trace st' r
+  | o :: r => let ts' := tstep ts o in L (map (fun p => enc_table (cur ts') (fst p)) (live (cur ts'))) :: trace ts' r
   end.
 Definition run_c09 (x : sexp) : sexp :=
-  match dec_list dec_mop x with
-  | Some h => L [enc_bool (dom h); L (trace init h)]
+  match dec_list dec_top x with
+  | Some h => L [enc_bool (tdom h); L (trace tinit h)]
   | None => bad
   end.
